@@ -11,9 +11,9 @@ import (
 
 // envModel holds the state of the environment models (clock, file system) of one path.
 type envModel struct {
-	nowSeq  int
-	lastNow *Term
-	fs      *fsModel
+	nowSeq   int
+	lastNow  *Term
+	fs       *fsModel
 	unixMemo map[string]*Term
 }
 
